@@ -118,6 +118,8 @@ class Gen:
             if isinstance(h,str):
                 if h in sigma: return self.derive(depth-1,leaves)
                 s=self.derive(depth-1,leaves); sigma[h]=self.concl(s); subs.append(s)
+            elif not (len(h)==3 and h[0]=='\\imp' and isinstance(h[1],str) and isinstance(h[2],str)):
+                return self.derive(depth-1,leaves)  # hypothesis of a shape this generator cannot discharge
             else:
                 # hyp (imp v w): need |- (imp S W): use prop-1 shape: (imp S (imp Y S))?? requires w:= (imp Y S) consistent
                 v,w=h[1],h[2]
